@@ -582,12 +582,12 @@ def one_case(case, st, measure_mem):
 
 
 # bases that are valid files of their format (fault-free identification oracle)
-VALID_PREFIX = ("synth:elf",)
+VALID_PREFIX = ("synth:elf", "synth:coff", "synth:hex", "synth:srec")
 VALID_SAMPLES = {
     "x86/flow.elf", "x86/loop_simple.elf", "x86/test_full.elf", "x86/test_partial.elf", "x86/test_pie.elf", "x86/prefixes.elf",
     "x86/CoST.exe", "x86/puttygen.exe", "x64/continue.elf64", "x64/cxx.elf64", "x64/flow.elf64", "x64/loop_simple.elf64",
     "x64/merge.elf64", "x64/test_full.elf64", "x64/test_partial.elf64", "x64/toc.osx/toc.mach-o", "x64/toc.osx/lib/libtoc.dylib.mach-o",
-    "arm/hw", "arm/sc", "arm/sc.o", "arm/sc_thumb.o", "sparc/saverestore", "sparc/solaris-sed.elf", "ebpf/bpf_patched_prog",
+    "arm/hw", "arm/sc", "arm/sc.o", "arm/sc_thumb.o", "sparc/saverestore", "sparc/solaris-sed.elf", "ebpf/bpf_patched_prog", "avr/firmware.hex",
 }
 
 
